@@ -409,6 +409,9 @@ class New(cssutils.util._BaseClass):
             # :func(expression)"
             self.append(seq, val, 'function-end', token=token)
             self.context.pop()  # pseudo is done
+            if 'negation' == self.context[-1]:
+                # :not(:func(expression)
+                return Constants.negationend
             if 'pseudo-element' == context:
                 return Constants.combinator
             else:
